@@ -60,12 +60,12 @@ def binom_conf_interval(n, x, cl=0.975, alternative="two-sided", p=None,
         f = lambda q: cl - binom.cdf(x - 1, n, q)
         while f(p) < 0:
             p = (p+1)/2
-        ci_low = brentq(f, 0.0, p, *kwargs)
+        ci_low = brentq(f, 0.0, p, **kwargs)
     if alternative != "lower" and x < n:
         f = lambda q: binom.cdf(x, n, q) - (1 - cl)
         while f(p) < 0:
             p = p/2
-        ci_upp = brentq(f, 1.0, p, *kwargs)
+        ci_upp = brentq(f, 1.0, p, **kwargs)
 
     return ci_low, ci_upp
 
